@@ -356,6 +356,9 @@ func profileTree(g *G, p ProfileSpec, shuffle bool, prefixes []string) *ynode {
 		}
 		levels[l] = append(levels[l], v.Name)
 	}
+	for l, names := range p.Dangling {
+		levels[l] = append(levels[l], names...) // canonical spelling: after the defined names; shuffled spellings: anywhere
+	}
 	top := []string{"profile", "prefixes", "violation", "warning", "info", "validations"}
 	for _, ti := range c.order(len(top)) {
 		switch top[ti] {
@@ -443,6 +446,15 @@ func genC15(g *G, n int, out io.Writer) {
 			base.Validations[k].Level = []string{"violation", "warning", "info"}[g.n(3)]
 		}
 		spec := ProfileSpec{Name: fmt.Sprintf("c15_%d", i), Atoms: base.Atoms, Paths: base.Paths, Validations: base.Validations}
+		if g.coin(0.4) {
+			// a name that is listed under a level but not defined (say, a removed validation): ignored wherever it stands in the list
+			spec.Dangling = map[string][]string{}
+			for _, l := range []string{"violation", "warning", "info"} {
+				if g.coin(0.6) {
+					spec.Dangling[l] = []string{g.pick([]string{"ghost", "removed-rule", "v99"})}
+				}
+			}
+		}
 		var w strings.Builder
 		canon := &ystyle{g: g, indent: 2, flowP: 0}
 		canon.block(&w, profileTree(g, spec, false, []string{"ex"}), 0)
